@@ -72,7 +72,7 @@ PROPS = {
         "level_note": "Proof per program; programs sampled (corpus of enum descriptors). Trusted: client-view FromMeta for inner types, parse_meta_list uninterpreted, rewrite rules incl. R13b/R5b/R7b.",
         "design_ref": "DESIGN.md section 6 C09",
         "assumptions": "L3",
-        "not_covered": ["container-level from_word / from_none options", "L2 InputVariant::with_inherited separately contracted (exercised through emitted code only)"],
+        "not_covered": ["`word = false` is read by the derive as no word variant (checked through the emitted-interface obligation only)"],
     },
     "C17": {
         "units": ["c17_sibling_alts"],
